@@ -76,3 +76,158 @@ def is_fd_sent(ev, send, can_id, data):
 def cpg_header_octet(tos, tf, cpgn, length, b):
     return ite(b == 0, bits(tos, 0, 3) * 32 + bits(tf, 0, 3) * 4 + bits(cpgn, 16, 2),
                ite(b == 1, bits(cpgn, 8, 8), ite(b == 2, bits(cpgn, 0, 8), length)))
+
+
+# ------------------------------------------------------------------ class invariant of J1939_22 (DESIGN appendix A, Inv22)
+
+def lut_ok(dll):
+    # the DLC look-up table built in __init__: next legal CAN FD length for every length 0..64
+    return len(dll._LUT_FD_DLC) == 65 and forall(lambda i: dll._LUT_FD_DLC[i] == fd_len(i), 0, 65)
+
+
+def pool_rts(dll):
+    return dll._J1939_22__rts_cts_session_list
+
+
+def pool_bam(dll):
+    return dll._J1939_22__bam_session_list
+
+
+def cfg22_ok(dll):
+    return (1 <= dll._max_cmdt_packets and dll._max_cmdt_packets <= 255 and dll._minimum_tp_bam_dt_interval > 0
+            and implies(not is_none(dll._minimum_tp_rts_cts_dt_interval), dll._minimum_tp_rts_cts_dt_interval > 0)
+            and lut_ok(dll) and len(pool_rts(dll)) == 8 and len(pool_bam(dll)) == 4
+            and owner(dll._LUT_FD_DLC) == dll and owner(pool_rts(dll)) == dll and owner(pool_bam(dll)) == dll
+            and owner(dll._cas) == dll
+            and no_alias(dll._snd_buffer, dll._rcv_buffer, dll._multi_pg_snd_buffer)
+            and no_alias(dll._LUT_FD_DLC, dll._cas, pool_rts(dll), pool_bam(dll)))
+
+
+def snd22_ok(dll, k, r):
+    return (has_keys(r, 'pgn', 'priority', 'session', 'message_size', 'num_segments', 'data', 'state', 'deadline', 'src_address',
+                     'dest_address', 'next_packet_to_send')
+            and not has_key(r, 'next_packet') and not has_key(r, 'tos') and not has_key(r, 'cpg') and no_alias(r, dll)
+            and k == hash22(r['session'], r['src_address'], r['dest_address'])
+            and 0 <= r['src_address'] and r['src_address'] <= 255 and 0 <= r['dest_address'] and r['dest_address'] <= 255
+            and 61 <= r['message_size'] and r['message_size'] < 2 ** 24
+            and r['num_segments'] == ceil60(r['message_size']) and r['num_segments'] <= len(r['data'])
+            and 0 <= r['next_packet_to_send'] and r['next_packet_to_send'] <= r['num_segments']
+            and 0 <= r['state'] and r['state'] <= 6
+            and 0 <= r['pgn'] and r['pgn'] < 2 ** 18
+            and 0 <= r['priority'] and r['priority'] <= 7
+            and r['deadline'] > 0
+            and owner(r['data']) == r
+            # the session number is taken from the pool of its kind, and marked as taken there
+            and ite(r['dest_address'] != 255,
+                    0 <= r['session'] and r['session'] <= 7 and pool_rts(dll)[r['session']] == False
+                    and has_key(r, 'next_wait_on_cts')
+                    and r['state'] != S22_SENDING_BAM and r['state'] != S22_SENDING_EOMS,
+                    0 <= r['session'] and r['session'] <= 3 and pool_bam(dll)[r['session']] == False
+                    and (r['state'] == S22_SENDING_BAM or r['state'] == S22_SENDING_EOMS))
+            and implies(r['state'] == S22_SENDING_BAM, r['next_packet_to_send'] < r['num_segments'])
+            and implies(r['state'] == S22_SENDING_RTS_CTS,
+                        r['next_packet_to_send'] <= r['next_wait_on_cts'] and r['next_wait_on_cts'] < r['num_segments']))
+
+
+def rcv22_ok(dll, k, r):
+    return (has_keys(r, 'pgn', 'session', 'message_size', 'num_segments', 'next_packet', 'data', 'deadline', 'src_address',
+                     'dest_address')
+            and not has_key(r, 'next_packet_to_send') and not has_key(r, 'tos') and not has_key(r, 'cpg') and no_alias(r, dll)
+            and k == hash22(r['session'], r['src_address'], r['dest_address'])
+            and 0 <= r['session'] and r['session'] <= 15
+            and 0 <= r['src_address'] and r['src_address'] <= 255 and 0 <= r['dest_address'] and r['dest_address'] <= 255
+            and 0 <= r['pgn'] and r['pgn'] < 2 ** 24
+            and 0 <= r['message_size'] and r['message_size'] < 2 ** 24
+            and 0 <= r['num_segments'] and r['num_segments'] < 2 ** 24
+            and 1 <= r['next_packet']
+            and r['deadline'] > 0
+            # reassembly never keeps more than the announced size
+            and len(r['data']) <= r['message_size'] and octets(r['data'])
+            and has_key(r, 'next_cts_border') == has_key(r, 'num_segments_max_rec')
+            and implies(has_key(r, 'next_cts_border'),
+                        0 <= r['num_segments_max_rec'] and r['num_segments_max_rec'] <= 255
+                        and 0 <= r['next_cts_border'] and r['next_cts_border'] <= r['num_segments'])
+            # the reassembly buffer is owned by its session (it is extended in place)
+            and owner(r['data']) == r)
+
+
+def cpg_ok(c):
+    return (has_keys(c, 'priority', 'tos', 'tf', 'cpgn', 'data_length', 'data')
+            and not has_key(c, 'next_packet') and not has_key(c, 'next_packet_to_send') and not has_key(c, 'cpg')
+            and 0 <= c['priority'] and c['priority'] <= 7 and 0 <= c['tos'] and c['tos'] <= 7 and 0 <= c['tf'] and c['tf'] <= 7
+            and 0 <= c['cpgn'] and c['cpgn'] < 2 ** 18 and 0 <= c['data_length'] and c['data_length'] <= 60
+            and len(c['data']) == c['data_length'] and octets(c['data']) and owner(c['data']) == c)
+
+
+def cpg_sz(cs, i, n):
+    # octets the i-th contained group takes in the frame (4-octet header + data), 0 beyond the first n groups
+    return ite(i < n, 4 + cs[i]['data_length'], 0)
+
+
+def psum(cs, n):
+    # octets taken by the first n groups of cs (n <= 16: a frame of 64 octets holds at most 16 groups)
+    return (cpg_sz(cs, 0, n) + cpg_sz(cs, 1, n) + cpg_sz(cs, 2, n) + cpg_sz(cs, 3, n) + cpg_sz(cs, 4, n) + cpg_sz(cs, 5, n)
+            + cpg_sz(cs, 6, n) + cpg_sz(cs, 7, n) + cpg_sz(cs, 8, n) + cpg_sz(cs, 9, n) + cpg_sz(cs, 10, n) + cpg_sz(cs, 11, n)
+            + cpg_sz(cs, 12, n) + cpg_sz(cs, 13, n) + cpg_sz(cs, 14, n) + cpg_sz(cs, 15, n))
+
+
+def cpgs_ok(cs):
+    return (1 <= len(cs) and len(cs) <= 16 and forall(lambda i: cpg_ok(cs[i]), 0, len(cs)) and psum(cs, len(cs)) <= 64)
+
+
+def mpg22_ok(dll, k, r):
+    return (has_keys(r, 'deadline', 'cpg', 'fill_level')
+            and not has_key(r, 'next_packet') and not has_key(r, 'next_packet_to_send') and not has_key(r, 'tos') and no_alias(r, dll)
+            and 0 <= k and k < 2 ** 32
+            and cpgs_ok(r['cpg']) and r['fill_level'] == psum(r['cpg'], len(r['cpg'])) and owner(r['cpg']) == r)
+
+
+def inv22(dll):
+    return (cfg22_ok(dll)
+            and keys_forall(dll._snd_buffer, lambda k, r: snd22_ok(dll, k, r))
+            and keys_forall(dll._rcv_buffer, lambda k, r: rcv22_ok(dll, k, r))
+            and keys_forall(dll._multi_pg_snd_buffer, lambda k, r: mpg22_ok(dll, k, r))
+            # a session number is held by at most one send session of its kind
+            and forall(lambda a, b: implies(has_key(dll._snd_buffer, a) and has_key(dll._snd_buffer, b) and a != b
+                                            and (dll._snd_buffer[a]['dest_address'] == 255) == (dll._snd_buffer[b]['dest_address'] == 255),
+                                            dll._snd_buffer[a]['session'] != dll._snd_buffer[b]['session'])))
+
+
+def mn(a, b):
+    return ite(a < b, a, b)
+
+
+def pr_at(cs, i, n):
+    return ite(i < n, cs[i]['priority'], 7)
+
+
+def min_prio(cs, n):
+    # lowest priority value (= highest urgency) among the first n groups, 7 if none
+    return mn(mn(mn(mn(pr_at(cs, 0, n), pr_at(cs, 1, n)), mn(pr_at(cs, 2, n), pr_at(cs, 3, n))),
+                 mn(mn(pr_at(cs, 4, n), pr_at(cs, 5, n)), mn(pr_at(cs, 6, n), pr_at(cs, 7, n)))),
+              mn(mn(mn(pr_at(cs, 8, n), pr_at(cs, 9, n)), mn(pr_at(cs, 10, n), pr_at(cs, 11, n))),
+                 mn(mn(pr_at(cs, 12, n), pr_at(cs, 13, n)), mn(pr_at(cs, 14, n), pr_at(cs, 15, n)))))
+
+
+def group_at_off(data, cs, j, o):
+    # the j-th contained group sits at offset o: 4-octet C-PG header, then its data octets
+    return (forall(lambda b: data[o + b] == cpg_header_octet(cs[j]['tos'], cs[j]['tf'], cs[j]['cpgn'], cs[j]['data_length'], b), 0, 4)
+            and forall(lambda t: data[o + 4 + t] == cs[j]['data'][t], 0, cs[j]['data_length']))
+
+
+def group_at(data, cs, j):
+    # groups are laid out back to back: the j-th one starts where the first j end
+    return group_at_off(data, cs, j, psum(cs, j))
+
+
+def offsets_ok(off, cs):
+    # off[j] = octets taken by the first j groups (running sum)
+    return (len(off) == len(cs) + 1 and off[0] == 0
+            and forall(lambda j: off[j + 1] == off[j] + 4 + cs[j]['data_length'], 0, len(cs))
+            # (consequence of the recurrence, stated for the prover: running sums are monotone)
+            and forall(lambda j: 0 <= off[j] and off[j] <= off[len(cs)], 0, len(cs) + 1))
+
+
+def pad_at(data, start, i):
+    # padding after the last group: a zero service header (TOS 0: up to three 0x00 octets), then 0xAA
+    return data[i] == ite(i < start + 3, 0, 0xAA)
